@@ -13,7 +13,8 @@ CLAIMED = {
         "bound the result denotes exactly the mathematical set; decided per path by SMT, counterexamples replayed natively. "
         "Listed known findings (sequence->GenericSet fall-back, sparse Bytes) are excluded by input class and still reported.",
         "L<=3, offset in [-2,2], probe index in [-4,6], <=1 prior operation; frozen replaced by a list model; the 8x8 set-operator "
-        "dispatch matrix and relations in every pair of column layouts (literal vs joined) are separate harnesses (DESIGN.md §4 C01)"),
+        "dispatch matrix, relations in every pair of column layouts (literal vs joined) and the Array kernel (0..3 items, offsets, "
+        "holes) are separate harnesses (DESIGN.md §4 C01)"),
     "C02": (
         "Bounded symbolic execution of every Equal and Hash implementation: symmetry/reflexivity of Equal and Equal => equal Hash "
         "(for a symbolic seed, hash primitives uninterpreted) on all pairs of an 18-kind universe, and 12 pairs of construction "
@@ -27,7 +28,8 @@ CLAIMED = {
         "content, offset and operation argument within the bound, deriving two values from one parent leaves the parent and the "
         "first derivative unchanged; decided per path by SMT, counterexamples replayed natively.",
         "strings/bytes: L<=3, offset in [-2,2], index in [-4,6], histories of 2-3 operations; arrays: <=3 items, offset in [-1,1], "
-        "index in [-1,4], histories of 2-3 with/without operations; relations: two joins from one join result; frozen modelled; "
+        "index in [-1,4], histories of 2-3 with/without operations; dictionaries (<=2 entries) and generic tuples over {a,b,c} "
+        "likewise; relations: two joins from one join result; frozen modelled; "
         "Go 1.24 append growth rule"),
     "C04": (
         "Bounded symbolic execution of the eight real join operators (New*Expr -> BinExpr.Eval -> Joiner -> Relation.Join / "
@@ -132,7 +134,8 @@ CLAIMED = {
         "compilePackage -> path.Clean -> importLocalFile -> findRootFromModule -> fileValue (lexing on a concrete twin of the "
         "same length) against a recording read-only afero.Fs: every file the compilation tries to read lies beneath the module "
         "root (the script's directory without a module), a root import without a module fails without reading; (2) the real "
-        "importCache.getOrAdd under the executor's scheduler: two concurrent importers of one key agree and import once, a "
+        "importCache.getOrAdd under the executor's scheduler: two concurrent importers of one key agree and import once (also "
+        "while a third goroutine imports another key and broadcasts on the shared condition variable), a "
         "failing import wakes its waiters, a re-entrant import (cycle of length 1 or 2) must return instead of waiting on itself "
         "(listed known finding: it hangs; confirmed natively by timeout).",
         "Q of 1..4 (thorough 1..6) characters over { . / space a }, script in /m/a or /m, with and without /m/go.mod; cache: 2 "
